@@ -2,6 +2,7 @@
 // parameter points.  Usage: gen_inputs --format slha|gm2calc|thdm --seed S --first I --count N --dir D
 // writes D/<format>_<index>.in ; numbers are printed with %.17g so that they parse to the intended doubles.
 #include "gen.hpp"
+#include "gm2calc/gm2_1loop.hpp"
 #include <cstdio>
 #include <fstream>
 
@@ -18,10 +19,15 @@ static std::string sminputs(const SM& sm, bool with_alpha_inv) {
    return s;
 }
 
-static bool gen_gm2calc(vh::Rng& r, std::string& text) {
+// special = a valid point on which only the evaluation without tan(beta) resummation fails (large tan(beta) and mu, light sbottoms: the sbottom is tachyonic with
+// the tree-level bottom Yukawa coupling and fine with the resummed one) - the program's reports then take their fallback paths
+static bool gen_gm2calc(vh::Rng& r, std::string& text, bool special = false) {
    gen::MssmPoint p = gen::rand_mssm(r, 150, 2500, 2, 60);
    for (int g = 0; g < 3; ++g) { p.mq[g] = r.LU(500, 5000); p.mU[g] = r.LU(500, 5000); p.mD[g] = r.LU(500, 5000); p.Ae[g] = r.U(-1, 1) * 500; p.Au[g] = r.U(-1, 1) * 1000; p.Ad[g] = r.U(-1, 1) * 1000; }
-   try { MSSMNoFV_onshell m = gen::make_mssm(p); if (m.get_problems().have_problem() || m.get_problems().have_warning()) return false; } catch (const Error&) { return false; }
+   if (special) { p.tb = r.U(45, 60); p.mu = r.U(1500, 2500); p.m3 = std::fabs(p.m3); p.mq[2] = r.U(450, 650); p.mD[2] = r.U(450, 650); p.Ad[2] = r.U(-1, 1) * 300; }
+   try { MSSMNoFV_onshell m = gen::make_mssm(p); if (m.get_problems().have_problem() || m.get_problems().have_warning()) return false;
+         if (special) { bool throws = false; try { (void)calculate_amu_1loop_non_tan_beta_resummed(m); } catch (const Error&) { throws = true; } if (!throws) return false; }
+   } catch (const Error&) { return false; }
    SM sm;
    std::string s = "Block GM2CalcInput\n";
    const double vals[33] = {p.Q, 0.00775531, 0.00729735, p.tb, p.mu, p.m1, p.m2, p.m3, p.ma, p.ml[0], p.ml[1], p.ml[2], p.me[0], p.me[1], p.me[2], p.mq[0], p.mq[1], p.mq[2], p.mU[0], p.mU[1], p.mU[2], p.mD[0], p.mD[1], p.mD[2],
@@ -109,10 +115,10 @@ int main(int argc, char** argv) {
    const long first = static_cast<long>(a.getd("first", 0)), count = static_cast<long>(a.getd("count", 1));
    gen::CerrCapture cap;
    long written = 0;
-   for (long i = first; written < count && i < first + 50 * count; ++i) {
+   for (long i = first; written < count && i < first + 50 * count + 2000; ++i) {
       vh::Rng r(a.seed, fmt == "slha" ? 1 : (fmt == "gm2calc" ? 2 : 3), i);
       std::string text; bool ok = false;
-      if (fmt == "slha") ok = gen_slha(r, text); else if (fmt == "gm2calc") ok = gen_gm2calc(r, text); else ok = gen_thdm(r, text);
+      if (fmt == "slha") ok = gen_slha(r, text); else if (fmt == "gm2calc") ok = gen_gm2calc(r, text, written % 6 == 4); else ok = gen_thdm(r, text);
       if (!ok) continue;
       std::ofstream f(dir + "/" + fmt + "_" + std::to_string(written) + ".in"); f << text; ++written;
    }
